@@ -22,7 +22,8 @@ Proof.
   - unfold py_mod, py_floor. nunf. qb; try lra; (eexists; split; [reflexivity|]; cbn [is_ok toQ]; split; [reflexivity|]; floor_facts; try lra; try nra).
 Qed.
 
-Ltac okleaf := eexists; split; [reflexivity|]; cbn [is_ok toQ]; split; [reflexivity|]; floor_facts; try lra; try nra.
+Ltac injn := unfold Z.sub in *; repeat rewrite inject_Z_plus in *; repeat rewrite inject_Z_opp in *.
+Ltac okleaf := eexists; split; [reflexivity|]; cbn [is_ok toQ is_int andb]; split; [reflexivity|]; floor_facts; injn; repeat split; intros; try discriminate; try lra; try nra.
 
 (* wrap: inside [lo, hi]; strictly below hi unless all three arguments are ints *)
 Lemma wrap_int_range x lo hi : (lo <= hi)%Z ->
@@ -41,12 +42,42 @@ Proof.
   destruct x as [x|x|], lo as [lo|lo|], hi as [hi|hi|]; try discriminate; cbn [toQ] in H.
   - destruct (wrap_int_range x lo hi) as [r [E [R1 R2]]]. { apply inj_lt in H. lia. }
     exists (I r). split; [exact E|]. cbn [is_ok toQ is_int andb]. split; [reflexivity|].
-    rewrite <- !Zle_Qle. repeat split; try lia. discriminate.
-  - unfold py_wrap, py_floor; cbn [is_int andb]; nunf; qb; try lra; okleaf.
-  - unfold py_wrap, py_floor; cbn [is_int andb]; nunf; qb; try lra; okleaf.
-  - unfold py_wrap, py_floor; cbn [is_int andb]; nunf; qb; try lra; okleaf.
-  - unfold py_wrap, py_floor; cbn [is_int andb]; nunf; qb; try lra; okleaf.
-  - unfold py_wrap, py_floor; cbn [is_int andb]; nunf; qb; try lra; okleaf.
-  - unfold py_wrap, py_floor; cbn [is_int andb]; nunf; qb; try lra; okleaf.
-  - unfold py_wrap, py_floor; cbn [is_int andb]; nunf; qb; try lra; okleaf.
+    rewrite <- !Zle_Qle. repeat split; try lia; try discriminate.
+  - unfold py_wrap, py_floor; cbn [is_int andb]; nunf; qb; injn; try lra; okleaf.
+  - unfold py_wrap, py_floor; cbn [is_int andb]; nunf; qb; injn; try lra; okleaf.
+  - unfold py_wrap, py_floor; cbn [is_int andb]; nunf; qb; injn; try lra; okleaf.
+  - unfold py_wrap, py_floor; cbn [is_int andb]; nunf; qb; injn; try lra; okleaf.
+  - unfold py_wrap, py_floor; cbn [is_int andb]; nunf; qb; injn; try lra; okleaf.
+  - unfold py_wrap, py_floor; cbn [is_int andb]; nunf; qb; injn; try lra; okleaf.
+  - unfold py_wrap, py_floor; cbn [is_int andb]; nunf; qb; injn; try lra; okleaf.
+Qed.
+
+Ltac mixed f := unfold f, py_floor, py_ceil; cbn [is_int andb]; nunf; qb; injn; try lra; okleaf.
+
+Lemma fold_int_range x lo hi : (lo < hi)%Z ->
+  exists r, py_fold (I x) (I lo) (I hi) = I r /\ (lo <= r <= hi)%Z.
+Proof.
+  intros H. unfold py_fold. cbn [is_int andb nsub nadd lift2].
+  rewrite py_mod_int by lia.
+  pose proof (Z.mod_pos_bound (x - lo) (hi - lo + (hi - lo)) ltac:(lia)).
+  unfold ngt, cmp2, Qlt_bool. cbn [toQ nsub nadd lift2].
+  destruct (Qle_bool_spec (inject_Z ((x - lo) mod (hi - lo + (hi - lo)))) (inject_Z (hi - lo))) as [L|L];
+    rewrite <- Zle_Qle in L; cbn [negb nsub nadd lift2]; eexists; (split; [reflexivity|]); lia.
+Qed.
+
+Lemma fold_general x lo hi : is_ok x = true -> is_ok lo = true -> is_ok hi = true -> toQ lo < toQ hi ->
+  exists r, py_fold x lo hi = r /\ is_ok r = true /\ toQ lo <= toQ r /\ toQ r <= toQ hi.
+Proof.
+  intros Hx Hlo Hhi H.
+  destruct x as [x|x|], lo as [lo|lo|], hi as [hi|hi|]; try discriminate; cbn [toQ] in H.
+  - destruct (fold_int_range x lo hi) as [r [E [R1 R2]]]. { apply inj_lt in H. lia. }
+    exists (I r). split; [exact E|]. cbn [is_ok toQ]. split; [reflexivity|].
+    rewrite <- !Zle_Qle. lia.
+  - mixed py_fold.
+  - mixed py_fold.
+  - mixed py_fold.
+  - mixed py_fold.
+  - mixed py_fold.
+  - mixed py_fold.
+  - mixed py_fold.
 Qed.
